@@ -1,6 +1,6 @@
 -------------------------- MODULE TrustChainTrace --------------------------
 (* Trace validation for C14: what the harness did to the validator instances of one world
-   (NewValidator / Validate / FetchReply as the world says / Heal) and, after the loop went quiescent,
+   (NewValidator with a key storage / Validate / FetchReply as the world says / Heal / Forget) and, after the loop went quiescent,
    what it observed: constructor outcome per instance, certificate Interests per instance, verdicts
    in order of completion. The internal steps (CheckSchema, UseAnchor, UseCache, Fetch, VerifySig,
    Verdict) are not observed: TLC looks for them. The world is part of the trace. *)
@@ -16,7 +16,8 @@ RangeOf(s) == {s[i] : i \in 1..Len(s)}
 \* JSON arrays -> sets
 WorldOf(j) == [schema |-> {<<x[1], x[2]>> : x \in RangeOf(j.schema)},
                roots |-> RangeOf(j.roots), covers |-> [sh \in DOMAIN j.covers |-> RangeOf(j.covers[sh])], shape |-> j.shape, certs |-> j.certs, pkts |-> j.pkts,
-               alg |-> j.alg, sch |-> j.sch, epoch |-> 0]      \* alg: JSON object key -> algorithm (never empty)
+               alg |-> j.alg, sch |-> j.sch, epoch |-> 0,      \* alg: JSON object key -> algorithm (never empty)
+               alias |-> j.alias, fp |-> j.fp]                  \* (never empty: the harness adds an entry for a name no element uses)
 
 TInit == /\ tid \in 1..Len(Traces)
          /\ l = 1 /\ ph = "env"
@@ -31,10 +32,11 @@ PostOk(p) ==
   /\ \A i \in 1..Len(out) : out[i].v = p.out[i].v /\ out[i].p = p.out[i].p /\ out[i].r = p.out[i].r
 
 Stim(e) ==
-  CASE e.a = "NewValidator" -> NewValidator(e.v, e.x)
+  CASE e.a = "NewValidator" -> NewValidator(e.v, e.x, e.st)
     [] e.a = "Validate" -> Validate(e.s, e.p)
     [] e.a = "FetchReply" -> FetchReply(e.app, e.n, e.kind)
     [] e.a = "Heal" -> Heal(e.x)
+    [] e.a = "Forget" -> Forget(e.v)
     [] OTHER -> FALSE
 
 TEnv == /\ ph = "env" /\ l <= Len(Tr)
@@ -57,4 +59,5 @@ Post == \A i \in 1..Len(Traces) :
           \/ TLCGet(i) = Len(Traces[i].ev) + 1
           \/ PrintT(<<"REJECTED", i, TLCGet(i)>>)
 AnyAnchor(v) == DOMAIN W.certs
+AnyStore(v) == StoreKinds
 =============================================================================
